@@ -244,6 +244,7 @@ func TestTracers(t *testing.T) {
 		c := genCase(t)
 		st.Journal(map[string]any{"kind": "trace", "case": c})
 		if err := runCase(c, st); err != nil {
+			ev.G().PinLast()
 			t.Fatalf("C14 violated: %v", err)
 		}
 	})
@@ -275,6 +276,7 @@ func TestReplay(t *testing.T) {
 	}
 	for i := 0; i < reps; i++ {
 		if err := runCase(c, nil); err != nil {
+			ev.G().PinLast()
 			t.Fatalf("C14 violated: %v", err)
 		}
 	}
